@@ -394,13 +394,33 @@ pub fn run(ctx: &mut Ctx) {
             raw_id_case(ctx, case, &mut rng, &scratch, per_state);
             continue;
         }
-        let backend = if rng.chance(1, 8) { Backend::File } else { Backend::Memory };
-        let (mut store, _p) = new_store(backend, &scratch);
+        let backend = if rng.chance(1, 6) { Backend::File } else { Backend::Memory };
+        let (mut store, path) = new_store(backend, &scratch);
         let uni = Universe::new(&mut rng, 1);
         let other = Universe::new(&mut rng, 2);
         let n = rng.range(2, if ctx.is_quick() { 20 } else { 36 });
         build_state(&mut rng, &mut store, &uni, &other, n);
         let ns = uni.ns.id();
+        // Half of the file-backed states are queried after the store was closed and opened again
+        // (added after seeded change agent-C05-9): what an open does to the tables - clean-ups,
+        // rebuilds - must leave every query answering from the entries the replica holds.
+        if let Some(p) = path.as_ref().filter(|_| rng.chance(1, 2)) {
+            let before = dump(&mut store, ns).ok();
+            let _ = store.flush();
+            drop(store);
+            store = match Store::persistent(p) {
+                Ok(s) => s,
+                Err(e) => {
+                    ctx.violation(case, "reopen-failed", json!({"err": format!("{e:?}")}));
+                    continue;
+                }
+            };
+            ctx.count("states_queried_after_a_reopen", 1);
+            if dump(&mut store, ns).ok() != before {
+                ctx.violation(case, "entries-differ-after-reopen", json!({}));
+                continue;
+            }
+        }
         let dm = match dump(&mut store, ns) {
             Ok(d) => d,
             Err(e) => {
